@@ -11,6 +11,7 @@ SCOPE = {
  "C01": "dictionary coder round trip on 0-1 symbolic bytes, decoder lemmas for literal + overlapping back-reference copies, rANS encoder with an empty table; rANS/FSE/Huffman table construction and whole-message round trips are beyond the caps and not claimed",
  "C02": "bit-level Match encode/decode round trip for all 8 variants with symbolic fields (incl. the variable-length format switches and the top of the Far3Long range) and BitWriter/BitReader for 6 width triples; sequence decoding (open known finding), compressor-layer framing and PA-Zip are not claimed",
  "C04": "rank1/rank0/get/select1/select0/len/count_ones against the popcount-prefix definition for BitVector, IL256 (cache off), SE256/SE512 (tables off), Simple, MixedIL256, Few, trivial and the scalar/BMI2 bulk entry points, 1-2 symbolic words at block boundaries; select caches/tables ON, adaptive and vector kernels are not claimed",
+ "C06": "SmallMap<u8,u8> in its inline mode (<= 4 entries): every history of 2 operations from {insert, remove, get, get_mut, contains_key} on symbolic keys and values, and every single operation from a map that already holds 2 or 3 entries, against an array model (returned values, len, lookup of an arbitrary key, iteration yields each live entry exactly once); ZiporaHashMap in all its storage strategies, GoldHashMap, the string-keyed maps and promotion of SmallMap to the large map do not finish within the caps (36 GB / 45 min for one insert+get) and are NOT claimed",
  "C07": "BumpAllocator for every size and 7 alignments, MemoryPool alloc/free/reuse, LockFreeMemoryPool refusal of huge sizes (quick); LockFreeMemoryPool size-class histories and FixedCapacityMemoryPool only in the thorough tier (24-36 GB); other pools not claimed",
  "C08": "Treiber stack of SecureMemoryPool: one operation of thread A with up to K complete operations of thread B at each of its 4 schedule points (fire-once nested interference), also under an allocator model that recycles freed node addresses (ABA); lock-free pool fast bins only in the thorough tier; weak memory and non-nested schedules are not claimed",
  "C09": "UintVecMin0 set/get for 33 bit widths 0..64, refusal of out-of-range reads, ZipIntVec incl. the top of usize, IntVec small datasets (5 element types), UintVector push; constructors whose width depends on symbolic data, SortedUintVec and bit-packed UintVector builds are beyond the caps",
@@ -33,7 +34,12 @@ DEFAULT_NOTE = ("Trusted: Kani 0.68 MIR->goto translation, CBMC 6.11, CaDiCaL; t
                 "thread bookkeeping); mem::forget of error/containers at harness end. Nothing is claimed outside the listed shapes, "
                 "unwind bounds and functions; see DESIGN.md section 4 for the 'out' list of this property.")
 
-NOT_APPLICABLE = {}  # property -> reason
+NOT_APPLICABLE = {  # property -> reason (measured; details in DESIGN.md section 7.3)
+ "C03": "solver-based checking of the real code does not reach the blob stores: every store keeps its records in a std HashMap (MemoryBlobStore, SimpleZip dedup) or builds them through FastVec-backed builders (ZipOffsetBlobStoreBuilder, SortedUintVecBuilder), and CBMC does not finish symbolic execution of even the smallest history (c03_mem_put_put_remove: put, put, remove on concrete ids with 1-byte symbolic payloads: still in symex after 2700 s with a 36 GB cap; the quick-cap attempts of the other 15 harnesses ended the same way). No harness of this property ever returned a verdict, so there is no bound inside which a claim could be made; the harnesses are kept in harness/src/c03_blobstore.rs (tier probe)",
+ "C05": "not reachable: the trie implementations (ZiporaTrie with LOUDS / Patricia / critical-bit / double-array strategies) build rank-select indexes, FastVec node pools and std HashMap caches on every insert; the smallest history tried (c05_louds_111_remove: three 1-byte keys and one removal) is still in symbolic execution after 2700 s with a 36 GB cap, and the two quick-cap harnesses time out at 600 s. No verdict was ever produced for this property",
+ "C17": "not reachable: LruMap and the page/blob caches sit on std HashMap plus intrusive index lists; the smallest scenario (c17_lru_cap1_evict: capacity 1, two inserts, one lookup) does not leave symbolic execution in 2700 s with a 36 GB cap, and all 4 quick harnesses time out at 600 s. No verdict was ever produced for this property",
+ "C18": "not reachable: Kani has no model of threads, so the scheduler is driven through the guarded hooks (work_stealing::verif_access) as a sequential interleaving of steps, but the per-worker queues are VecDeque<Box<dyn Task>> behind Arc<Mutex>: two tasks and four scripted operations give 35-41 M clauses (c18_q_push2_bal_steal), and the smallest reachability scenario (c18_reach_w1_n2_bal: one worker, two tasks) runs CaDiCaL out of memory at 36 GB after 1033 s (37 322 verification conditions). No verdict was ever produced; real multi-threaded schedules, timing and async wake-ups are outside bounded model checking of sequential code in any case",
+}
 # properties whose quick check currently runs green end to end on the unchanged tree (maintained by hand)
 READY = set(l.strip() for l in open(os.path.join(VERIF, "run", "ready.txt")) if l.strip() and not l.startswith("#"))
 
